@@ -63,7 +63,24 @@ let parse_pobj ts = match ts with
     (match r' with h :: b :: r'' -> (PStream (d, bytes_of_hex h, b = "1"), r'') | _ -> raise (Bad "pobj"))
   | _ -> raise (Bad "pobj")
 
-(* filter encoders as a table: (filter name, input) -> output, from the harness *)
+let hexs l = match l with [] -> "-" | _ -> hex_of_bytes l
+
+let rec show (o : obj) : string =
+  match o with
+  | ONull -> "n"
+  | OBool true -> "t"
+  | OBool false -> "f"
+  | OInt z -> "i" ^ string_of_z z
+  | OReal t -> "r" ^ Stdlib.String.of_seq (Stdlib.List.to_seq (Stdlib.List.map (fun b -> Char.chr (int_of_n b land 255)) t))
+  | OName n -> "N" ^ hexs n
+  | OStr s -> "S" ^ hexs s
+  | OArr l -> Stdlib.String.concat " " (("A" ^ string_of_int (Stdlib.List.length l)) :: Stdlib.List.map show l)
+  | ODict l ->
+    Stdlib.String.concat " " (("D" ^ string_of_int (Stdlib.List.length l)) ::
+                              Stdlib.List.map (fun (k, v) -> hexs k ^ " " ^ show v) l)
+  | ORef (n, g) -> "R" ^ string_of_n n ^ "." ^ string_of_n g
+
+(* filter encoders as a table: (filter name, parameters, input) -> output, from the harness *)
 let enc_table : (string * string, coq_N list) Hashtbl.t = Hashtbl.create 64
 let dec_table : (string * string, coq_N list) Hashtbl.t = Hashtbl.create 64
 let prefilter = ref false
@@ -71,13 +88,15 @@ let has_key (k : string) (d : (coq_N list * obj) list) =
   Stdlib.List.exists (fun (key, _) ->
       Stdlib.String.of_seq (Stdlib.List.to_seq (Stdlib.List.map (fun b -> Char.chr (int_of_n b)) key)) = k) d
 
-let fenc_table (name : coq_N list) (_ : (coq_N list * obj) list) (data : coq_N list) : coq_N list =
-  match Hashtbl.find_opt enc_table (hex_of_bytes name, hex_of_bytes data) with
+let fkey name parms = hex_of_bytes name ^ " " ^ show (ODict parms)
+
+let fenc_table (name : coq_N list) (parms : (coq_N list * obj) list) (data : coq_N list) : coq_N list =
+  match Hashtbl.find_opt enc_table (fkey name parms, hex_of_bytes data) with
   | Some o -> o
   | None -> Stored.fenc_concrete name [] data
 
 let fdec_table (name : coq_N list) (parms : (coq_N list * obj) list) (data : coq_N list) : coq_N list option =
-  match Hashtbl.find_opt dec_table (hex_of_bytes name, hex_of_bytes data) with
+  match Hashtbl.find_opt dec_table (fkey name parms, hex_of_bytes data) with
   | Some o -> Some o
   | None -> Inst.fdec_concrete name parms data
 
@@ -121,10 +140,17 @@ let rec parse_ops n ts acc =
           | "E" :: k :: r4 ->
             let rec encs k ts = if k = 0 then ts else
                 match ts with
-                | name :: i :: o :: ts' ->
-                  Hashtbl.replace enc_table (name, i) (bytes_of_hex o);
-                  Hashtbl.replace dec_table (name, o) (bytes_of_hex i);
-                  encs (k - 1) ts'
+                | name :: ts0 ->
+                  let (p, ts1) = parse_dict ts0 in
+                  (match ts1 with
+                   | i :: o :: ts' ->
+                     (* the writer hands the parameters as given, the reader as read (normalised) *)
+                     let key = fkey (bytes_of_hex name) p in
+                     let rkey = (match norm (ODict p) with ODict q -> fkey (bytes_of_hex name) q | _ -> key) in
+                     Hashtbl.replace enc_table (key, i) (bytes_of_hex o);
+                     Hashtbl.replace dec_table (rkey, o) (bytes_of_hex i);
+                     encs (k - 1) ts'
+                   | _ -> raise (Bad "E"))
                 | _ -> raise (Bad "E") in
             let r5 = encs (int_of_string k) r4 in
             if has_key "Filter" d then prefilter := true;
@@ -141,23 +167,6 @@ let rec parse_ops n ts acc =
        | _ -> raise (Bad "Z"))
     | t :: _ -> raise (Bad ("op " ^ t))
     | [] -> raise (Bad "ops")
-
-let hexs l = match l with [] -> "-" | _ -> hex_of_bytes l
-
-let rec show (o : obj) : string =
-  match o with
-  | ONull -> "n"
-  | OBool true -> "t"
-  | OBool false -> "f"
-  | OInt z -> "i" ^ string_of_z z
-  | OReal t -> "r" ^ Stdlib.String.of_seq (Stdlib.List.to_seq (Stdlib.List.map (fun b -> Char.chr (int_of_n b land 255)) t))
-  | OName n -> "N" ^ hexs n
-  | OStr s -> "S" ^ hexs s
-  | OArr l -> Stdlib.String.concat " " (("A" ^ string_of_int (Stdlib.List.length l)) :: Stdlib.List.map show l)
-  | ODict l ->
-    Stdlib.String.concat " " (("D" ^ string_of_int (Stdlib.List.length l)) ::
-                              Stdlib.List.map (fun (k, v) -> hexs k ^ " " ^ show v) l)
-  | ORef (n, g) -> "R" ^ string_of_n n ^ "." ^ string_of_n g
 
 let cls_name (c : Res.cls) = match c with
   | Res.Panic -> "panic" | Res.Malformed -> "malformed" | Res.OutOfFuel -> "fuel" | _ -> "other"
@@ -204,7 +213,9 @@ let () =
                       | Expect.EVal _, "k" -> "K obj"
                       | Expect.EStrm _, "k" -> "K stream"
                       | Expect.EVal o, _ -> "V " ^ show o
-                      | Expect.EStrm (d, data), _ -> "T " ^ show d ^ " " ^ hexs data in
+                      | Expect.EStrm (d, data), _ ->
+                        let (f, p) = Expect.expected_chain st.wr (n_of_string n) (n_of_string g) in
+                        "T " ^ show d ^ " F " ^ show f ^ " P " ^ show p ^ " " ^ hexs data in
                     Printf.printf "%s.%s.%s %s\n" id n g s;
                     go (k - 1) qs'
                   | _ -> raise (Bad "Q") in
